@@ -263,3 +263,43 @@ theorem pg_descent_dir_fails_via_stacked :
   norm_num [dot2, pgdbDir, projViaStacked, toS, projS, toV] at this
 
 end QM.C11
+
+/-! ## the CVXPY-backed estimator minimises the same function when all schedules have the same number of shots -/
+namespace QM.C11
+section cvx
+variable {K : Type} [Field K] [LinearOrder K] [IsStrictOrderedRing K]
+
+/-- C11.cvx_se_equal_shots: with the same shot count `n ≠ 0` for each of the `S` schedules, the objective that
+`CvxpyUniformSquaredError.value_cvxpy` hands to the solver is `1/S` times the identity-weight squared error minimised by the
+projected-gradient estimators (same model distributions `ps`, same data `qs`). -/
+theorem cvx_se_equal_shots (n : K) (hn : n ≠ 0) (S : Nat) (hS : 0 < S) (ps qs : List (List K)) (hp : ps.length = S)
+    (hq : qs.length = S) :
+    cvxSquaredError (numRatios (List.replicate S n)) ps qs = (1 / (S : K)) * plainSquaredError ps qs := by
+  have hS' : (S : K) ≠ 0 := Nat.cast_ne_zero.2 (Nat.pos_iff_ne_zero.1 hS)
+  have hr : numRatios (List.replicate S n) = List.replicate S (1 / (S : K)) := by
+    unfold numRatios
+    rw [lsum_replicate, List.map_replicate]
+    congr 1
+    field_simp
+  have hl : (ps.zip qs).length = S := by simp [hp, hq]
+  unfold cvxSquaredError plainSquaredError
+  rw [hr, ← hl]
+  exact weighted_const (1 / ((ps.zip qs).length : K)) (ps.zip qs)
+
+/-- C11.cvx_se_same_minimisers: hence the two estimators rank any two parameter points identically — they have the same
+constrained minimisers (the agreement claim of the property is well posed). -/
+theorem cvx_se_same_minimisers (n : K) (hn : n ≠ 0) (S : Nat) (hS : 0 < S) (ps ps' qs : List (List K)) (hp : ps.length = S)
+    (hp' : ps'.length = S) (hq : qs.length = S) :
+    cvxSquaredError (numRatios (List.replicate S n)) ps qs ≤ cvxSquaredError (numRatios (List.replicate S n)) ps' qs ↔
+      plainSquaredError ps qs ≤ plainSquaredError ps' qs := by
+  rw [cvx_se_equal_shots n hn S hS ps qs hp hq, cvx_se_equal_shots n hn S hS ps' qs hp' hq]
+  have hpos : (0 : K) < 1 / (S : K) := by
+    have : (0 : K) < (S : K) := Nat.cast_pos.2 hS
+    positivity
+  exact mul_le_mul_iff_of_pos_left hpos
+
+example : cvxSquaredError (numRatios [(10 : ℚ), 10]) [[1/2, 1/2], [1/4, 3/4]] [[1, 0], [0, 1]] = 5 / 16 := by
+  norm_num [cvxSquaredError, numRatios, sqErr, lsum]
+
+end cvx
+end QM.C11
